@@ -66,6 +66,7 @@ def make_node_stub(name, maybe_none):
         prov = st.obj(self_v).fields["_provider"]
         parent = make_node(eng, st, prov, short + ".parent", directory=True)
         n = make_node(eng, st, prov, short + ".node", parent=parent)
+        st.obj(n).fields["is_root"] = P.fresh("bool", short + ".node.is_root")
         if maybe_none:
             isn = z3.Bool(P.fresh_name(short + "?none"))
             rv = mk_union([(isn, NONE), (znot(isn), n)])
